@@ -66,6 +66,7 @@ type Report struct {
 	verifDir string
 	Variants []string // loads analysed (native, 386, cha...)
 	Conds    map[string]func() (bool, string) // machine-checked side conditions of reviewed entries
+	required [][2]string
 }
 
 func NewReport(prop, tier, verifDir string) *Report {
@@ -209,6 +210,14 @@ func (r *Report) Fatal(format string, a ...any) {
 
 func (r *Report) Floor(rule string, n int) { r.Floors[rule] = n }
 
+// Require names an obligation (by key) that was confirmed by hand on today's
+// tree and must still be produced by its rule; if the construct the rule
+// matched has disappeared, the rule passes vacuously for it, which is
+// reported as undecided.
+func (r *Report) Require(key, why string) {
+	r.required = append(r.required, [2]string{key, why})
+}
+
 func (r *Report) Rule(desc string)   { r.Rules = append(r.Rules, desc) }
 func (r *Report) Assumes(s string)   { r.Assume = append(r.Assume, s) }
 func (r *Report) Note(f string, a ...any) { r.Notes = append(r.Notes, fmt.Sprintf(f, a...)) }
@@ -231,6 +240,15 @@ func (r *Report) Finish(seed int) int {
 	for rule, fl := range r.Floors {
 		if r.Counts[rule] < fl {
 			r.fatal = append(r.fatal, fmt.Sprintf("rule %s matched %d instances, below the hand-confirmed floor %d (vacuous or subsystem removed)", rule, r.Counts[rule], fl))
+		}
+	}
+	haveKey := map[string]bool{}
+	for _, o := range r.Obls {
+		haveKey[o.Key] = true
+	}
+	for _, rq := range r.required {
+		if !haveKey[rq[0]] {
+			r.fatal = append(r.fatal, fmt.Sprintf("hand-confirmed rule instance %q no longer exists (%s): the rule would pass vacuously for it", rq[0], rq[1]))
 		}
 	}
 	sort.SliceStable(r.Obls, func(i, j int) bool { return r.Obls[i].Key < r.Obls[j].Key })
